@@ -55,7 +55,7 @@ def stepLine (dom : String) (st : DState) (full : String) : DState × String :=
       let op := (fields.headD "")
       let keep := match dom with
         | "idx11" => ["create", "update", "delete", "value", "exists", "createbad", "txn", "excl", "hist"].contains op
-        | "idx12" => ["init", "rebuild", "query"].contains op
+        | "idx12" => ["init", "rebuild", "query", "collide"].contains op
         | "idx13" => ["query"].contains op
         | "idx14" => ["flush"].contains op
         | _ => true
